@@ -55,8 +55,10 @@ def run_sweep(case, res):
             d["community"] = "c" * v
         elif dim == "user":
             d["user"] = "u" * v
+        elif dim == "engine":
+            d["engine_id"] = bytes((0x80 | (i & 0x3F)) for i in range(v)).hex()
         cfg = Cfg.from_desc(d)
-        if dim in ("community", "user") or shared is None:
+        if dim in ("community", "user", "engine") or shared is None:
             if shared is not None:
                 shared.close()
             shared = drivers.SplitWorld(cfg)
@@ -255,6 +257,11 @@ def gen_cases(tier, cap):
                 continue
             yield {"cfg": d, "dim": dim, "op": op, "values": lo if thorough or op == "get" else lo[::3]}
             yield {"cfg": d, "dim": dim, "op": op, "values": hi}
+        if cfg.version == "v3" and (thorough or cfg.name in ("v3-noauth-nopriv-kt0", "v3-sha1-aes-kt0", "v3-md5-des-kt0")):
+            # the engine id is written twice (USM header, scoped PDU): lengths across 127/128 and 255/256 (it stays far from the
+            # capacity, so this sweep takes no part in the cross-dimension comparison of the largest datagram)
+            yield {"cfg": d, "dim": "engine", "op": "get", "values": list(range(1, 301))}
+            yield {"cfg": d, "dim": "engine", "op": "getbulk", "values": list(range(120, 136)) + list(range(250, 262))}
         for k in (0, 1, 2, 27, 28, 29, 30, 31):
             yield {"cfg": d, "dim": "lastoid", "op": "get_many", "k": k, "values": list(range(2, 129))}
         # number of varbinds: the shortest possible varbinds, one more per step, until the request no longer fits
